@@ -715,6 +715,14 @@ pub fn run(p: &[String]) -> Vec<String> {
                         "set_outline_level_row" => { a.set_outline_level_row(num(v) as u8); } "set_thick_bottom" => { a.set_thick_bottom(flag(v)); } "set_thick_top" => { a.set_thick_top(flag(v)); } _ => panic!("setter {}", k) } } }
                     "print_options" => { let a = ws.get_print_options_mut(); for (k, v) in &kv { match k.as_str() { "set_horizontal_centered" => { a.set_horizontal_centered(flag(v)); } "set_vertical_centered" => { a.set_vertical_centered(flag(v)); } _ => panic!("setter {}", k) } } }
                     "merge_cells" => { for (k, v) in &kv { if k.starts_with("add_range") { ws.add_merge_cells(text(v)); } else { panic!("setter {}", k) } } }
+                    "cf_rule" => { use ConditionalFormatValues as T; use ConditionalFormattingOperatorValues as O; use TimePeriodValues as P;
+                        let mut a = ConditionalFormattingRule::default(); for (k, v) in &kv { match k.as_str() {
+                        "set_type" => { a.set_type([T::AboveAverage, T::BeginsWith, T::CellIs, T::ColorScale, T::ContainsBlanks, T::ContainsErrors, T::ContainsText, T::DataBar, T::DuplicateValues, T::EndsWith, T::Expression, T::IconSet, T::NotContainsBlanks, T::NotContainsErrors, T::NotContainsText, T::TimePeriod, T::Top10, T::UniqueValues][num(v) as usize].clone()); }
+                        "set_operator" => { a.set_operator([O::BeginsWith, O::Between, O::ContainsText, O::EndsWith, O::Equal, O::GreaterThan, O::GreaterThanOrEqual, O::LessThan, O::LessThanOrEqual, O::NotBetween, O::NotContains, O::NotEqual][num(v) as usize].clone()); }
+                        "set_text" => { a.set_text(text(v)); } "set_priority" => { a.set_priority(num(v) as i32); } "set_percent" => { a.set_percent(flag(v)); } "set_bottom" => { a.set_bottom(flag(v)); } "set_rank" => { a.set_rank(num(v)); }
+                        "set_stop_if_true" => { a.set_stop_if_true(flag(v)); } "set_std_dev" => { a.set_std_dev(num(v) as i32); } "set_above_average" => { a.set_above_average(flag(v)); } "set_equal_average" => { a.set_equal_average(flag(v)); }
+                        "set_time_period" => { a.set_time_period([P::Last7Days, P::LastMonth, P::LastWeek, P::NextMonth, P::NextWeek, P::ThisMonth, P::ThisWeek, P::Today, P::Tomorrow, P::Yesterday][num(v) as usize].clone()); } _ => panic!("setter {}", k) } }
+                        let mut cf = ConditionalFormatting::default(); cf.get_sequence_of_references_mut().set_sqref("A1:A5"); cf.add_conditional_collection(a); ws.add_conditional_formatting_collection(cf); }
                     "workbook_protection" => {}
                     _ => panic!("struct {}", which),
                 }
@@ -751,6 +759,7 @@ pub fn run(p: &[String]) -> Vec<String> {
                     "color" => match ws.get_style((1, 1)).get_font() { None => "none".into(), Some(f) => color(f.get_color()) },
                     "sheet_view" => { let v = &ws.get_sheets_views().get_sheet_view_list()[0]; format!("{} {} {} {:?} {} {} {}", v.get_show_grid_lines(), v.get_tab_selected(), v.get_workbook_view_id(), v.get_view(), v.get_zoom_scale(), v.get_zoom_scale_normal(), v.get_top_left_cell()) }
                     "sheet_format_properties" => { let a = ws.get_sheet_format_properties(); format!("{} {} {} {} {} {} {} {} {}", a.get_base_column_width(), a.get_custom_height(), a.get_default_column_width(), a.get_default_row_height(), a.get_dy_descent(), a.get_outline_level_column(), a.get_outline_level_row(), a.get_thick_bottom(), a.get_thick_top()) }
+                    "cf_rule" => ws.get_conditional_formatting_collection().iter().flat_map(|c| c.get_conditional_collection().iter().map(|a| format!("{:?} {:?} |{}| {} {} {} {} {} {} {} {} {:?}", a.get_type(), a.get_operator(), a.get_text(), a.get_priority(), a.get_percent(), a.get_bottom(), a.get_rank(), a.get_stop_if_true(), a.get_std_dev(), a.get_above_average(), a.get_equal_average(), a.get_time_period())).collect::<Vec<_>>()).collect::<Vec<_>>().join(" ; "),
                     "print_options" => { let a = ws.get_print_options(); format!("{} {}", a.get_horizontal_centered(), a.get_vertical_centered()) }
                     "merge_cells" => ws.get_merge_cells().iter().map(|r| r.get_range()).collect::<Vec<_>>().join(","),
                     "row" => { let mut v: Vec<String> = ws.get_row_dimensions().iter().filter(|r| *r.get_row_num() != 1).map(|r| format!("{}: h={} d={} tb={} ch={} hid={}", r.get_row_num(), r.get_height(), r.get_descent(), r.get_thick_bot(), r.get_custom_height(), r.get_hidden())).collect(); v.sort(); v.join(" | ") }
